@@ -2,7 +2,7 @@
 Model of `tds/packetQueue.go` (and the parts of `tds/packet.go`, `tds/packetHeader.go` it uses).
 
 A transcription, quirks included: one cursor `(ip, id)` shared by reads and writes,
-`Bytes` consuming everything before it reports not-enough-bytes, `DiscardUntilCurrentPosition`
+`Bytes` checking availability first and consuming everything when it reports not-enough-bytes, `DiscardUntilCurrentPosition`
 dropping a completely consumed cursor packet, `WriteBytes` opening packets of the packet size
 in force.  Where the Go code would panic (slice bounds, index out of range) the model says `.panic`.
 
@@ -95,14 +95,20 @@ def readLoop : List Packet → (id need : Nat) → (acc : Bytes) → (adv : Nat)
         else readLoop rest 0 need' acc' (adv + 1)
       else (.ok acc', adv, endI)
 
-def padTo (n : Nat) (bs : Bytes) : Bytes := bs ++ List.replicate (n - bs.length) 0
+/-- `unread()`: the number of bytes between the position and the end of the queue (an `int` in
+Go: negative when the data index lies beyond the cursor packet) -/
+def unreadCount (q : PQ) : Int :=
+  ((q.queue.drop q.ip).map (·.data.length)).sum - q.id
 
-/-- `Bytes(n)` for `n ≥ 0`. On `short` the slice has length `n`, zero padded, as in Go. -/
+/-- `Bytes(n)` for `n ≥ 0`. A request beyond the received bytes consumes everything and returns
+no slice (nothing is allocated for it). -/
 def bytes (q : PQ) (n : Nat) : RdOut × PQ :=
-  if n == 0 then (.ok [], q) else
+  if n == 0 then (.ok [], q)
+  else if (n : Int) > q.unreadCount then (.short [], { q with ip := q.queue.length, id := 0 })
+  else
   match readLoop (q.queue.drop q.ip) q.id n [] 0 with
   | (.ok bs, adv, id) => (.ok bs, { q with ip := q.ip + adv, id := id })
-  | (.short bs, adv, id) => (.short (padTo n bs), { q with ip := q.ip + adv, id := id })
+  | (.short bs, adv, id) => (.short bs, { q with ip := q.ip + adv, id := id })
   | (.panic, adv, id) => (.panic, { q with ip := q.ip + adv, id := id })
 
 /-- `Read(p)` with `len(p) = n`: `copy(p, bs)` of the slice `Bytes(n)` returns, so the caller's
